@@ -102,7 +102,9 @@ func record(prop string, c Case, info Info, trace []string) {
 }
 
 func runOne(t *testing.T, rt vstat.TB, prop, test string, c Case) {
-	info, v, trace := Run(t, c)
+	info, v, trace := Run(t, c, func(v *vstat.Violation, trace []string) {
+		vstat.For(prop).Record(test, c, &vstat.Violation{Sig: v.Sig, Msg: v.Msg + "\nschedule:\n  " + strings.Join(trace, "\n  ")})
+	})
 	if v != nil {
 		v.Msg += "\nschedule:\n  " + strings.Join(trace, "\n  ")
 	}
@@ -130,7 +132,7 @@ func TestC01FaultSweep(t *testing.T) {
 	rapid.Check(t, func(rt *rapid.T) {
 		c := genCase(rt, "C01")
 		c.Faults = nil
-		info, v, trace := Run(t, c)
+		info, v, trace := Run(t, c, nil)
 		if v != nil {
 			v.Msg += "\nschedule:\n  " + strings.Join(trace, "\n  ")
 		}
@@ -180,7 +182,7 @@ func TestReplay(t *testing.T) {
 	if err != nil {
 		t.Fatalf("cannot load %s: %v", p, err)
 	}
-	if strings.HasPrefix(env.Test, "TestC01Stress") || strings.HasPrefix(env.Test, "TestC05") {
+	if strings.HasPrefix(env.Test, "TestC01Stress") || strings.HasPrefix(env.Test, "TestC01LongWaiter") || strings.HasPrefix(env.Test, "TestC05") {
 		replayOther(t, env, p)
 		return
 	}
